@@ -209,7 +209,10 @@ impl<'a, 'tcx> BodyCx<'a, 'tcx> {
                 ProjectionElem::Deref => o.push_str("\"*\""),
                 ProjectionElem::Field(f, _) => {
                     let name = self.field_name(ty, f.as_usize());
-                    esc_into(&mut o, &format!(".{}", name));
+                    match ty.ty.kind() {
+                        ty::Adt(def, _) => esc_into(&mut o, &format!(".{}:{}", name, self.cx.path(def.did()))),
+                        _ => esc_into(&mut o, &format!(".{}", name)),
+                    }
                 }
                 ProjectionElem::Index(l) => {
                     let _ = write!(o, "\"[_{}]\"", l.as_u32());
